@@ -77,9 +77,14 @@ def load_twin() -> list[dict]:
     return _derived("twin.json")
 
 
+def load_fat() -> list[dict]:
+    """fat-aggregate variants (tools/build_fat.py): every aggregate gets two more elements"""
+    return _derived("fat.json")
+
+
 def load_all() -> list[dict]:
-    """base + extra + wide + twin"""
-    return load_base() + load_wide() + load_twin()
+    """base + extra + wide + twin + fat"""
+    return load_base() + load_wide() + load_twin() + load_fat()
 
 
 def load_safe(wide: bool = False) -> list[dict]:
